@@ -222,6 +222,9 @@ type Entry struct {
 	Rdev    uint64   `json:"rdev,omitempty"`
 	Uid     int      `json:"uid,omitempty"`
 	Gid     int      `json:"gid,omitempty"`
+	// HardlinkTo (type f): this path is a second hard link of that path of the
+	// same tree (created after everything else; Content is ignored)
+	HardlinkTo Name `json:"hardlink_to,omitempty"`
 }
 
 // Tree is a list of entries; parents need not be listed (created 0755).
@@ -270,6 +273,13 @@ func Materialise(root string, t *Tree) error {
 		e    Entry
 	}
 	var dirs []dirfix
+	var links [][2]string
+	defer func() {
+		// (best effort: a missing or non-regular target leaves the link out)
+		for _, l := range links {
+			os.Link(l[0], l[1])
+		}
+	}()
 	for i, e := range es {
 		if i > 0 && es[i-1].Path == e.Path {
 			// (writing a "file" over a fifo of the same name would block forever)
@@ -288,6 +298,10 @@ func Materialise(root string, t *Tree) error {
 			dirs = append(dirs, dirfix{p, e})
 			continue
 		case "f":
+			if e.HardlinkTo != "" {
+				links = append(links, [2]string{filepath.Join(root, string(e.HardlinkTo)), p})
+				continue
+			}
 			if err := os.WriteFile(p, e.Content.Bytes(), 0600); err != nil {
 				return err
 			}
